@@ -246,7 +246,21 @@ def fam_capacity(cfg, tier, rng):
         if cfg["sz"] <= 3 and r > 250:
             continue
         out.append(["new 0 %s" % cfg["be"]] + ["push e 0 w"] * r + ["dropvec 0"])
-    return out
+    # the same calls through the typed view (AnyVecTyped::reserve / reserve_exact / shrink_to_fit / shrink_to):
+    # every case with small arguments a second time, every other case with a huge argument instead of the erased call
+    def typed(case):
+        return [("t" + st) if st.split(" ")[0] in ("reserve", "reserve_exact", "shrink_to_fit", "shrink_to") else st for st in case]
+    def small(case):
+        return all(int(st.split(" ")[2]) <= L + 3 for st in case if st.split(" ")[0] in ("reserve", "reserve_exact", "shrink_to"))
+    res = []
+    for i, cs in enumerate(out):
+        if not any(st.split(" ")[0] in ("reserve", "reserve_exact", "shrink_to_fit", "shrink_to") for st in cs):
+            res.append(cs)
+        elif small(cs):
+            res.append(cs); res.append(typed(cs))
+        else:
+            res.append(typed(cs) if i % 2 else cs)
+    return res
 
 def fam_views(cfg, tier, rng):
     """C12: byte / slice view geometry in every (len, cap) state, spare writes + set_len."""
@@ -398,7 +412,8 @@ def fam_random(cfg, tier, rng):
                 steps.append("clear %s %d" % (rng.choice("et"), v))
                 lens[v] = 0
             elif r < 0.97:
-                steps.append(rng.choice(["reserve %d %d" % (v, rng.randrange(9)), "reserve_exact %d %d" % (v, rng.randrange(9)),
+                steps.append(rng.choice(["", "t"]) +
+                             rng.choice(["reserve %d %d" % (v, rng.randrange(9)), "reserve_exact %d %d" % (v, rng.randrange(9)),
                                          "shrink_to_fit %d" % v, "shrink_to %d %d" % (v, rng.randrange(n + 9))]))
             else:
                 steps.append("iter %s %d %s" % (rng.choice(["ref", "mut", "tref", "tmut"]), v, "".join(rng.choice("FB") for _ in range(min(n, 6) + 1))))
